@@ -469,3 +469,15 @@ func oC15(ix *Index) []Violation {
 	}
 	return out
 }
+
+// renamed reports another property's clause under this property's name.
+func renamed(prop, prefix string, o oracleFn) oracleFn {
+	return func(ix *Index) []Violation {
+		vs := o(ix)
+		for i := range vs {
+			vs[i].Prop = prop
+			vs[i].Oracle = prefix + vs[i].Oracle
+		}
+		return vs
+	}
+}
